@@ -227,7 +227,15 @@ impl ParsedFields<'_, '_> {
             quote! {
                 // TODO: Use `derive_more::core::error::Error` once `error_in_core` Rust feature is
                 //       stabilized.
-                derive_more::with_trait::Error::provide(&#source_expr, request);
+                {
+                    // Going through `AsDynError` (as `source()` does) allows a
+                    // `Box<dyn Error>` source to provide too.
+                    use derive_more::__private::AsDynError as _;
+                    derive_more::with_trait::Error::provide(
+                        #source_expr.as_dyn_error(),
+                        request,
+                    );
+                }
             }
         });
         let backtrace_provider = self
@@ -261,7 +269,11 @@ impl ParsedFields<'_, '_> {
                     #pattern => {
                         // TODO: Use `derive_more::core::error::Error` once `error_in_core` Rust
                         //       feature is stabilized.
-                        derive_more::with_trait::Error::provide(source, request);
+                        use derive_more::__private::AsDynError as _;
+                        derive_more::with_trait::Error::provide(
+                            source.as_dyn_error(),
+                            request,
+                        );
                     }
                 })
             }
@@ -275,7 +287,11 @@ impl ParsedFields<'_, '_> {
                         request.provide_ref::<::std::backtrace::Backtrace>(backtrace);
                         // TODO: Use `derive_more::core::error::Error` once `error_in_core` Rust
                         //       feature is stabilized.
-                        derive_more::with_trait::Error::provide(source, request);
+                        use derive_more::__private::AsDynError as _;
+                        derive_more::with_trait::Error::provide(
+                            source.as_dyn_error(),
+                            request,
+                        );
                     }
                 })
             }
